@@ -182,3 +182,14 @@ func TestMultiText(t *testing.T) {
 		t.Fatal(got)
 	}
 }
+
+func TestD12(t *testing.T) {
+	doc := []interface{}{map[string]interface{}{"a": struct{}{}}}
+	r, err := jsonpath.Retrieve(`$[?(@.a)]`, doc)
+	if err != nil || len(r) != 1 {
+		t.Fatal(r, err)
+	}
+	if r, err := jsonpath.Retrieve(`$[?(!@.a)]`, doc); err == nil {
+		t.Fatal(r)
+	}
+}
